@@ -115,6 +115,13 @@ func (x *extractor) irExpr(e ast.Expr) string {
 				}
 			}
 			return "(.mcall " + x.irExpr(f.X) + " " + lstr(f.Sel.Name) + " " + x.irExprs(v.Args) + ")"
+		case *ast.IndexExpr:
+			// an instantiated generic function, e.g. As[T](r): the instantiation is part of the callee's name
+			if id, ok := f.X.(*ast.Ident); ok {
+				if _, isFunc := x.info.Uses[id].(*types.Func); isFunc {
+					return "(.call " + lstr(id.Name+"["+x.typeStr(f.Index)+"]") + " " + x.irExprs(v.Args) + ")"
+				}
+			}
 		case *ast.CallExpr, *ast.ParenExpr, *ast.FuncLit:
 			// calling the result of an expression, e.g. WithMaxRetries(r)(b.BaseNode)
 			return "(.mcall " + x.irExpr(v.Fun) + " \"()\" " + x.irExprs(v.Args) + ")"
